@@ -109,6 +109,8 @@ struct Monitor
     void feed(const Bytes& f, const std::string& op, bool forceWalk = false)
     {
         fed.push_back(f);
+        if (fed.size() > 16)
+            Bytes().swap(fed[fed.size() - 17]);  // (only the last frames are ever described)
         lastOp = op;
         c.note("history=" + describeFrames(fed, fed.size() - 1));
         if (fed.size() % (hookEvery > 1 ? 19997 : 17) == 16)
@@ -174,7 +176,15 @@ inline void exhaustiveOne(Ctx& c, long j)
 {
     Rng r = c.fixedRng(j, 17);
     Monitor m{c};
-    Ep e{1, 0, static_cast<uint16_t>((j % 7 == 0) ? 65533 : 10)};
+    // the endpoint's frame header values vary with the word (decorrelated from its letters): starting counters incl. 0 and 1 - what a
+    // default-constructed reassembly slot would "expect" next -, message types incl. 0 ('undefined') and 0xFF, versions 1, 2, 255
+    static const uint16_t seqs[] = {10, 65533, 1, 0, 65535, 2};
+    static const uint8_t mts[] = {wire::MT_DATA, 0, wire::MT_STATUS, 0xFF, wire::MT_DATA};
+    static const uint8_t vers[] = {1, 2, 255};
+    const uint64_t hp = mix64(static_cast<uint64_t>(j), 0x17e);
+    Ep e{1, 0, seqs[hp % 6]};
+    e.mt = mts[(hp >> 8) % 5];
+    e.ver = vers[(hp >> 16) % 3];
     long x = j;
     std::string word;
     for (int i = 0; i < 5; ++i)
@@ -233,6 +243,10 @@ inline void randomHistory(Ctx& c, long idx)
         }
         e.ver = static_cast<uint8_t>(r.range(1, 3));
         e.mt = r.chance(1, 4) ? wire::MT_STATUS : wire::MT_DATA;
+        if (r.chance(1, 6))
+            e.mt = r.pick<uint8_t>({0, 0, 0xFF, wire::MT_CONTROL, wire::MT_VENDOR});
+        if (r.chance(1, 6))
+            e.seq = r.pick<uint16_t>({0, 1, 2});
         eps.push_back(e);
     }
     std::vector<int> remaining(k, 0);  // segments still to send for the script in progress
@@ -327,9 +341,37 @@ inline void manyOpen(Ctx& c, long j)
     c.count(j == 2 ? "histories_with_70000_open_endpoints" : "histories_with_hundreds_of_open_endpoints");
 }
 
+// deterministic: hundreds of megabytes of SUPERSEDED reassemblies on one decoder: two endpoints keep starting 60 000-byte messages
+// that a new first segment replaces before they complete (150 MB quick, 600 MB thorough); every 400th message is completed
+// instead and must leave nothing behind. Byte budgets that are charged when a message starts and not refunded when it is
+// superseded run dry here.
+inline void supersededBytes(Ctx& c)
+{
+    Rng r = c.fixedRng(4, 33);
+    Monitor m{c};
+    Ep a{0x0201, 1, 100}, b{0x0201, 2, 65000};
+    const size_t rounds = c.thorough() ? 10000 : 2500;
+    for (size_t i = 0; i < rounds; ++i)
+    {
+        Ep& e = (i % 2) ? a : b;
+        GMsg f;
+        f.ts = i;
+        f.idWord = 1;
+        f.ptype = 0x30;
+        f.flags = wire::SEG_FIRST;
+        f.payload = Bytes(60000, static_cast<uint8_t>(i));
+        m.feed(buildFrame(e.ver, e.dev, e.mt, e.stream, e.seq++, {f}), "F(60000 bytes)");
+        if (i % 400 == 399)
+            m.feed(letterFrame(L_L, e, r), "L");
+    }
+    m.feed(letterFrame(L_U, a, r), "U");
+    m.feed(letterFrame(L_U, b, r), "U");
+    c.count("megabytes_of_superseded_reassemblies", rounds * 60000 / 1000000);
+}
+
 inline long count(Ctx& c)
 {
-    return kSeq5 + 3 + (c.thorough() ? kSeq4x2 + 2000000 : 40000);
+    return kSeq5 + 4 + (c.thorough() ? kSeq4x2 + 2000000 : 40000);
 }
 inline void run(Ctx& c, long idx)
 {
@@ -338,14 +380,16 @@ inline void run(Ctx& c, long idx)
     idx -= kSeq5;
     if (idx < 3)
         return manyOpen(c, idx);
-    idx -= 3;
+    if (idx < 4)
+        return supersededBytes(c);
+    idx -= 4;
     if (c.thorough())
     {
         if (idx < kSeq4x2)
             return exhaustiveTwo(c, idx);
         idx -= kSeq4x2;
     }
-    randomHistory(c, idx + kSeq5 + kSeq4x2 + 3);
+    randomHistory(c, idx + kSeq5 + kSeq4x2 + 4);
 }
 
 }  // namespace c17
